@@ -79,10 +79,12 @@ EitherAcct(o, k) == \A a \in DOMAIN o.accounts :
                        \/ k < NB /\ o.accounts[a] = Obs(k + 1).accounts[a]
 
 \* tmp.data records are not checksummed on replay: a torn record whose zero-filled body still parses is redelivered.
-\* Seen as: the async writer dies in afterWriteExtend on every open, or an account that no longer decodes.
+\* Seen as: the async writer dies in afterWriteExtend on every open, the stable block (torn confirm rewrite) or an
+\* account no longer decodes.
 DevTornRecordAccepted(e) ==
   /\ TornWal
   /\ \/ e.died /\ e.site = "(*SyncFileDB).afterWriteExtend"
+     \/ ~e.opened /\ ~e.died /\ e.site = "NewChainDataBase"       \* the rewritten stable block itself no longer decodes
      \/ /\ Opens(e) /\ StableNotOlder(e.obs) /\ StableBegun(e.obs)
         /\ ChainClosed(e.obs, Obs(e.obs.stable_h))
         /\ \E a \in DOMAIN e.obs.accounts : ~e.obs.accounts[a].ok
